@@ -161,6 +161,13 @@ func scenarios(th bool) []scenario {
 			out = append(out, scenario{Class: "mixed-fault", PreHash: idx(m.hash), PreDirect: idx(m.direct), HashFirst: true, Clients: [][]op{h}, Cache: "advH", Faults: "basic", MaxFaults: 1, Bound: 1})
 		}
 	}
+	// a storage or cache fault on one read, then further reads and submissions of the same chain: what a fault left behind
+	// (in the cache, in the service) must not outlive it
+	for _, h := range [][]op{{sub("L1"), seq, rd, rd}, {sub("L1"), seq, rd, sub("P1"), seq, rd, read}, {sub("P1"), sub("L4"), seq, rd, rd, sub("L1"), seq, read}} {
+		for _, c := range []string{"advH", "advM", "lru1", "lruN"} {
+			out = append(out, scenario{Class: "fault-then-more", Clients: [][]op{h}, Cache: c, Faults: "basic", MaxFaults: 1, Bound: 1})
+		}
+	}
 	// chains through a CA and through its re-issued twin (same name, key and key identifier), one after the other
 	for _, h := range [][]op{{sub("L1"), sub("L1ri"), seq, read}, {sub("L1ri"), sub("L1"), sub("P1ri"), seq, rd, read}, {sub("P1"), seq, sub("P1ri"), sub("L1"), seq, read}} {
 		for _, c := range []string{"noop", "lru1", "lruN", "advM"} {
